@@ -116,6 +116,12 @@ def run_grouped(ctx, cfgs, _unused, items):
     for i, cfg in enumerate(cfgs):
         name = "h%03d" % i
         files = [gen.yaml_doc(cfg)]
+        sdef = cfg["services"]["s"]
+        if sdef.get("todo") and len(sdef) > 1:
+            # the placeholder flag in the first file, the rest of the draft in a later one that does not repeat it
+            c1 = json.loads(json.dumps(cfg)); c1["services"]["s"] = {"todo": True}
+            c2 = {"services": {"s": {k: v for k, v in sdef.items() if k != "todo"}}}
+            files = [gen.yaml_doc(c1), gen.yaml_doc(c2)]
         rc, so, path = mod.gen_pkg(name, files, env=behave.ENV)
         if rc != 0:
             return [], "todo configuration rejected by the CLI: " + so[-500:] + files[0], None
